@@ -96,4 +96,41 @@ def DVS.fresh (val : Nat → Int) (d0 : Int) : DVS :=
   { val := val, upd := fun _ => false, ex := fun _ => false, reg := fun _ => false, dUpd := false, d := d0,
     seen := fun _ => 0 }
 
+/-- Runs thread `i` (always its first successor) until `stop` holds of its local state, it cannot move, or the fuel is
+used up: the building block of the forced schedules the driver replays. -/
+def runThread {σ τ : Type} (S : Sys σ τ) (stop : τ → Bool) (i : Nat) : Nat → Cfg σ τ → Cfg σ τ
+  | 0, c => c
+  | fuel + 1, (s, ts) =>
+    match ts[i]? with
+    | none => (s, ts)
+    | some t =>
+      if stop t then (s, ts)
+      else
+        match (S.step s t)[0]? with
+        | none => (s, ts)
+        | some (s', t') => runThread S stop i fuel (s', ts.set i t')
+
+/-- the thread has evaluated `compute` and is about to store the result -/
+def DVT.atCommit : DVT → Bool
+  | .comp _ _ _ [] _ => true
+  | _ => false
+
+/-- The constructor (thread 0) runs up to the commit of its `m`-th computation (or to its end, if it makes fewer). -/
+def dvzPark (S : Sys DVS DVT) : Nat → Cfg DVS DVT → Cfg DVS DVT
+  | 0, c => c
+  | m + 1, c =>
+    let c1 := runThread S DVT.atCommit 0 1000 c
+    if m == 0 then c1 else dvzPark S m (runThread S (fun _ => false) 0 1 c1)
+
+/-- **The forced schedule of `stress dvzero`**: the constructor is parked in front of the commit of its `m`-th
+computation, the writer (thread 1) makes its writes as far as it can, the constructor finishes, the writer finishes. -/
+def dvzReplay (n : Nat) (f : (Nat → Int) → Int) (trig : Nat → Bool) (inits : List Int) (m : Nat) (writes : List (Nat × Int)) :
+    Cfg DVS DVT :=
+  let S := dvSys n f trig
+  let c0 : Cfg DVS DVT := (DVS.fresh (fun i => inits.getD i 0) 0, [DVT.cIdle (List.range n), DVT.idle writes])
+  let c1 := dvzPark S m c0
+  let c2 := runThread S (fun _ => false) 1 1000 c1
+  let c3 := runThread S (fun _ => false) 0 1000 c2
+  runThread S (fun _ => false) 1 1000 c3
+
 end Hive.Derived
